@@ -759,6 +759,21 @@ def run_generic_sampled(sh, w, ctx, si, nshards):
                 ops = r.sample(table, n)          # strict order of the chain's precedences
             else:
                 ops = [r.choice(table) for _ in range(n)]
+            if len(cases) % 32 == 31:
+                # long chains that keep many operators pending at once (the evaluator's operator stack grows with the
+                # run of operators that do not reduce before their successor): 24..80 operators, as a run of one
+                # right-associative operator, a non-decreasing staircase of precedences, or an arbitrary mixture
+                n = r.choice([24, 31, 32, 33, 34, 40, 48, 64, 65, 80])
+                shape = r.random()
+                rops = [o for o in table if o.assoc == "R"]
+                if shape < 0.35 and rops:
+                    ops = [r.choice(rops)] * n
+                elif shape < 0.7:
+                    ops = sorted((r.choice(rops or table) if r.random() < 0.8 else r.choice(table) for _ in range(n)),
+                                 key=lambda o: (o.prec != o.prec, o.prec))
+                else:
+                    ops = [r.choice(table) for _ in range(n)]
+                sh.count("sampled:long-chains")
             allh = list(range(n + 1))
             hole_sets = [tuple(sorted(r.sample(allh, r.randint(1, n + 1)))) for _ in range(2)] + [(r.randrange(n + 1),)]
             logged_holes = tuple(sorted(r.sample(allh, r.randint(1, 3))))
